@@ -642,7 +642,7 @@ func spaces(tier string) []kit.Space {
 	if tier == "thorough" {
 		maxChain = 3
 	}
-	return []kit.Space{o1Space(maxChain), o2Space(maxChain), o3Space(), o4Space()}
+	return []kit.Space{o1Space(maxChain), o2Space(maxChain), o3Space(), o4Space(), nSpace(), pSpace(), mSpace()}
 }
 
 func main() {
@@ -653,6 +653,7 @@ func main() {
 			"O2: the same chains whose first partial has the main file's format, in plain text position. O3: 7 child/layout format pairs x 3 path forms x every layout position x 10 child variants (parameters, globals, imported macro, child variable, sibling call, explicit result type, two extends levels, default declared / not declared). " +
 			"O4: 9 positions x 6 imported formats x 3 path forms x 3 import forms x 5 macro variants. Every case builds and runs two real templates; non-trivial = both forms build (and their outputs or run errors are compared)",
 		Assumptions: []string{
+			"N, P and M (see more.go) are all-HTML file sets in plain text position, where O1 holds on the unchanged tree; N: main form (show, assigned) x output before the calls (none, some) x nested render of a third file (none, show, :=, var =) x value of an imported macro (none, before, after the nested render) x 7 bodies of the third file (among them macro values and renders of a fourth file in assigned forms) x 3 path forms, judged by O1 against the all-show forms and by O2 at two levels; P: a/x.html and b/x.html each referring to \"t.html\" (render show / assigned, import + show / var) reached from one index in both orders, forms and spellings, and one file rendered twice under every pair of spellings from the root and from a subdirectory, judged by O2; M: a body macro capturing nothing / a local variable / a global, calling an imported macro that reads (or updates) its own package-level variable and/or rendering a file with its own variable, called twice in show or assigned form, judged against the hand-expanded single file (O4 + O2)",
 			"a Markdown converter that wraps its input in <md>…</md> is installed, so that Markdown values can be shown in HTML",
 			"O1: when only one of the two forms builds the case is counted in its own class and is not a failure (the statement compares outputs)",
 			"O3/O4: the hand-written equivalent declares the macros with an explicit result type when the declaring file's format differs from the file they are inlined into",
